@@ -867,7 +867,7 @@ def suite_histories(ctx, exe):
         c = c.get("case", c)
         if c.get("suite", "histories") == "histories":
             cases.append(c)
-    n = 1500 if ctx.quick else 30000
+    n = 0 if os.environ.get("C18_CORPUS_ONLY") else (2500 if ctx.quick else 40000)
     for _ in range(n):
         limit = rng.choice([0, 0, 1, 1, 2])
         nreq = rng.choice([1, 1, 2, 3, 4])
